@@ -111,7 +111,7 @@ def check_pass(prob, props, before, after, ne_before, ne_after, trig_after):
                 # known finding K3: no_sub_cycle watches instantiation only; an unwatched bound change can make a
                 # re-execution prune and fail while some variable is still open (the failure is then found later)
                 bad.append(("K3", f"re-executing no_sub_cycle on {v} fails although the pass ended consistent"))
-            elif st == 0 or st == "oob":
+            elif st in (0, "oob", "hang"):
                 bad.append(("fixpoint", f"re-executing enabled constraint {q} ({a} {ps} on {v}) fails: {st}"))
             elif a != "no_sub_cycle" and [tuple(x) for x in out] != [tuple(x) for x in v]:
                 # a change of the views matters only if the write-back would tighten a shared domain
